@@ -18,6 +18,8 @@ pub struct PanicInfo {
 
 thread_local! {
     static LAST_PANIC: RefCell<Option<PanicInfo>> = const { RefCell::new(None) };
+    /// Nesting depth of `catch`: a panic at depth 0 is the harness's own and is printed.
+    static CATCH_DEPTH: std::cell::Cell<u32> = const { std::cell::Cell::new(0) };
 }
 
 /// Installs a silent panic hook that records message and location. A panic inside the
@@ -37,6 +39,9 @@ pub fn install_panic_hook() {
             .location()
             .map(|l| (l.file().to_string(), l.line()))
             .unwrap_or_default();
+        if CATCH_DEPTH.with(|d| d.get()) == 0 {
+            eprintln!("harness panic at {file}:{line}: {msg}");
+        }
         LAST_PANIC.with(|p| *p.borrow_mut() = Some(PanicInfo { msg, file, line }));
     }));
 }
@@ -92,7 +97,10 @@ pub fn truncate(s: &str, n: usize) -> String {
 
 pub fn catch<R>(f: impl FnOnce() -> R) -> Result<R, Caught> {
     LAST_PANIC.with(|p| *p.borrow_mut() = None);
-    match panic::catch_unwind(AssertUnwindSafe(f)) {
+    CATCH_DEPTH.with(|d| d.set(d.get() + 1));
+    let res = panic::catch_unwind(AssertUnwindSafe(f));
+    CATCH_DEPTH.with(|d| d.set(d.get() - 1));
+    match res {
         Ok(r) => Ok(r),
         Err(payload) => {
             if let Some(s) = payload.downcast_ref::<StepLimit>() {
